@@ -1329,8 +1329,11 @@ class C03(ParserProp):
     theorems = [("C03_complete", "forall (f : list message) (bs : list N), ok_in bs -> enc_file f bs -> parse bs = FileOk f"),
                 ("C03_streaming", "forall (f : list message) (bs : list N) (k : nat), ok_in bs -> enc_file f bs -> "
                  "sp_calls k (sp_new bs) = firstn k (map SEvent (flat_map flatten_msg f) ++ repeat SNone k)"),
-                ("C03_unique", "forall (bs : list N) (f1 f2 : list message), ok_in bs -> enc_file f1 bs -> enc_file f2 bs -> f1 = f2")]
-    level_text = ("Theorems C03_complete, C03_streaming, C03_unique (Coq, closed): for every abstract file f and every byte string bs in the "
+                ("C03_unique", "forall (bs : list N) (f1 f2 : list message), ok_in bs -> enc_file f1 bs -> enc_file f2 bs -> f1 = f2"),
+                ("C03_inhabited", "forall f : list message, wf_file f -> lenN (encode_file f) < 4294967296 -> "
+                 "ok_in (encode_file f) /\\ enc_file f (encode_file f) /\\ parse (encode_file f) = FileOk f")]
+    level_text = ("Theorems C03_complete, C03_streaming, C03_unique, C03_inhabited (Coq, closed; C03_inhabited: every well-formed abstract file "
+                  "has a canonical encoding in the relation and parses back to itself - the statement is vacuous for no file): for every abstract file f and every byte string bs in the "
                   "grammar relation enc_file f bs (Spec/Grammar.v, written independently of the parsers: all TLF sizes incl. non-minimal, "
                   "every integer byte count of a width class, optional masks, both time encodings, 1/2-byte CRC field), complete::parse "
                   "returns exactly f and the streaming parser exactly f's events then None; the grammar is unambiguous. Proved production "
